@@ -251,8 +251,9 @@ def run_check(spec, tier, seed, log=print):
         "wall_s": wall,
         "violations": len(violations),
     }
-    os.makedirs(os.path.join(VERIF, "evidence"), exist_ok=True)
-    with open(os.path.join(VERIF, "evidence", spec.prop + ".json"), "w") as f:
+    evdir = os.environ.get("VERIF_EVIDENCE_DIR") or os.path.join(VERIF, "evidence")
+    os.makedirs(evdir, exist_ok=True)
+    with open(os.path.join(evdir, spec.prop + ".json"), "w") as f:
         json.dump(evidence, f, indent=1, default=repr)
 
     for line in out_lines:
